@@ -258,6 +258,57 @@ def site_key(fn, callee, idx):
     return f'site|{fn}|{callee}|{idx}'
 
 
+def closure_context(ctx, b):
+    """for a closure body: (outer fn body, block of the call it is passed to, captured terms in the outer fn, receiver term, combinator name)"""
+    if b.get('kind') != 'Closure':
+        return None
+    P = ctx.P
+    outer = enclosing_fn(P, b)
+    if outer is b:
+        return None
+    TO = terms.Terms(outer)
+    for pbi, pt in P.calls(outer):
+        for ai, a in enumerate(pt['args']):
+            ta = TO.operand(a)
+            if ta[0] == 'agg' and ta[1][0] == 'closure' and ta[1][1] == b['name']:
+                recv = TO.operand(pt['args'][0]) if ai > 0 else None
+                return (outer, pbi, list(ta[2]), recv, mir.callee(pt) or '')
+    return None
+
+
+def lifted_guards(ctx, b, bi):
+    """guards of a site: those of its own body plus, for a closure, those of the call it is passed to in the enclosing function and the
+    guard the combinator itself provides (the closure of Option::map / and_then / filter / is_some_and runs only on Some)"""
+    gs = list(guard_predicates(ctx, b, bi))
+    cc = closure_context(ctx, b)
+    if cc is not None:
+        outer, pbi, caps, recv, comb = cc
+        gs += guard_predicates(ctx, outer, pbi)
+        if recv is not None and re.search(r'Option::<T>::(map|and_then|filter|is_some_and|map_or|map_or_else|inspect)$', comb):
+            r2 = terms.inline_calls(ctx.I, ctx.I.expand(recv), own_inlinable)
+            nf = normal_guard(ctx, ('call', 'std::option::Option::<T>::is_some', (r2,), -1), True)
+            if nf:
+                gs.append(nf)
+    return gs
+
+
+def lift_upvars(ctx, b, t):
+    """a term of a closure body with its captures replaced by the captured terms of the enclosing function"""
+    cc = closure_context(ctx, b)
+    if cc is None or t is None:
+        return t, b
+    outer, pbi, caps, recv, comb = cc
+    hit = [False]
+
+    def f(n):
+        if n[0] == 'upvar' and n[1] < len(caps):
+            hit[0] = True
+            return caps[n[1]]
+        return None
+    t2 = terms.subst(t, f)
+    return (t2, outer) if hit[0] else (t, b)
+
+
 def classify(ctx, b, bi, t, idx_in_fn):
     """returns (cls, by, detail, ok:bool, why)"""
     P = ctx.P
@@ -272,9 +323,42 @@ def classify(ctx, b, bi, t, idx_in_fn):
     for (fre, cre, cls, by, reason) in TABLE:
         if re.search(fre, fn) and re.search(cre, callee):
             return (cls, by, reason, True, '')
+    # a PRIVATE unsafe helper of the crate (e.g. three copies of a splice extracted into one fn): the call is justified when the caller
+    # would be allowed to perform, itself, every unsafe operation the helper performs (the analyses of the mutators inline such helpers)
+    hb = P.bodies.get(callee)
+    if hb is not None and hb.get('safety') == 'unsafe' and hb.get('vis') != 'pub' and callee.startswith(OWN):
+        inner = []
+        for _, t2 in P.calls(hb):
+            f2 = t2['func'].get('fn') if t2['func']['k'] == 'const' else None
+            if f2 and f2['safety'] == 'unsafe':
+                inner.append(mir.callee(t2) or f2['path'])
+        bad = [c2 for c2 in inner if not any(re.search(fre, fn) and re.search(cre, c2) for (fre, cre, _, _, _) in TABLE)]
+        if inner and not bad:
+            return ('MUTGATE', 'C04', f'private unsafe helper {callee.rsplit("::", 1)[-1]} doing {len(inner)} operation(s) this function is listed for', True, '')
+        if bad:
+            return ('?', None, '', False, f'private unsafe helper {callee} performs {bad[0]}, which {fn} is not listed for')
     T = terms.Terms(b)
     args = [T.operand(a) for a in t['args']]
     a0 = args[0] if args else None
+    rb = b          # the body in whose terms a0 is expressed (the enclosing fn once captures are substituted)
+    if a0 is not None and b.get('kind') == 'Closure':
+        a0, rb = lift_upvars(ctx, b, a0)
+    if a0 is not None and a0[0] == 'phi' and callee.endswith('::new_unchecked'):
+        # `new_unchecked(if c { X } else { Y })`: every alternative must be justified on its own
+        worst = None
+        for alt in a0[1]:
+            t2 = dict(t)
+            r = _classify_arg(ctx, b, bi, t, callee, alt, rb)
+            if not r[3]:
+                return r
+            worst = worst or r
+        return worst
+    return _classify_arg(ctx, b, bi, t, callee, a0, rb)
+
+
+def _classify_arg(ctx, b, bi, t, callee, a0, rb):
+    P = ctx.P
+    fn = b['name']
     # PctStr / PctString
     if callee.startswith('pct_str::'):
         r = ctx.text_root(a0)
@@ -348,7 +432,7 @@ def classify(ctx, b, bi, t, idx_in_fn):
             tys = [target[1]] if target[0] != 'generic' else target[2]
             if S == '__string__':
                 return ('?', None, '', False, 'arbitrary string wrapped without validation')
-            gs = [g for g in guard_predicates(ctx, b, bi) if g[2] == r]
+            gs = [g for g in lifted_guards(ctx, b, bi) if g[2] == r]
             for ty in tys:
                 w = ctx.inclusion(S, ty, gs)
                 if w is not None:
